@@ -59,15 +59,17 @@ func init() { register("precompile_auth", paDriver) }
 
 // ---------------------------------------------------------------- actors
 // 0 O (signer)  1 P (another EOA)  2..4 script contracts C1..C3   (as in evmexec.go)
-// 5 E: the ICS-20 escrow account of channel-0 (receives only)
+// 5 E: the ICS-20 escrow account of channel-0, 6 E1: that of channel-1 (they receive only)
 const (
-	paNAct   = 5 // actors whose assets are observed in full
-	paEscrow = 5
-	paNVal   = 2
+	paNAct    = 5 // actors whose assets are observed in full
+	paEscrow  = 5
+	paEscrow2 = 6
+	paNChan   = 2 // open transfer channels: channel-0, channel-1
+	paNVal    = 2
 	paDenom2 = "atest" // a second bank denomination (ICS-20 spend limits are per denomination)
 )
 
-var paActorName = []string{"O", "P", "C1", "C2", "C3", "escrow"}
+var paActorName = []string{"O", "P", "C1", "C2", "C3", "escrow", "escrow1"}
 var paICS = common.HexToAddress("0x0000000000000000000000000000000000000802")
 
 func paDenomName(d int) string {
@@ -120,7 +122,7 @@ func paKindOfURL(u string) string {
 
 // ---------------------------------------------------------------- input
 type paAlloc struct {
-	Chan   int        `json:"chan"`            // channel index (0 = channel-0, the only one that exists)
+	Chan   int        `json:"chan"`            // channel index: 0 = channel-0, 1 = channel-1 (both open), 2.. = channel-8.. (do not exist)
 	Limits [][]string `json:"limits"`          // [denom index, amount | "max"]
 	Allow  []int      `json:"allow,omitempty"` // allowed receivers (indices of remote receiver names), empty = any
 }
@@ -193,6 +195,7 @@ type paEnv struct {
 	t0     time.Time
 	h0     int64
 	escrow sdk.AccAddress
+	escrow2 sdk.AccAddress
 	ibcOK  bool
 }
 
@@ -261,6 +264,7 @@ func paBaseEnv() *paEnv {
 	pe.iABI = pcs[paICS].(*ics20precompile.Precompile).ABI
 
 	pe.escrow = transfertypes.GetEscrowAddress("transfer", "channel-0")
+	pe.escrow2 = transfertypes.GetEscrowAddress("transfer", "channel-1")
 	pe.ibcOK = pe.setupIBC() == nil
 	pe.t0 = e.Ctx.BlockTime()
 	pe.h0 = e.Ctx.BlockHeight()
@@ -271,7 +275,38 @@ func paBaseEnv() *paEnv {
 // setupIBC writes an open transfer channel (channel-0 over connection-0 over a
 // tendermint light client of a fictitious counterparty) and its capabilities.
 // Nothing is relayed: MsgTransfer only needs the sending side.
-func (e *paEnv) setupIBC() error { return setupIBCChannel(e.Env) }
+func (e *paEnv) setupIBC() error {
+	if err := setupIBCChannel(e.Env); err != nil {
+		return err
+	}
+	return paOpenSecondChannel(e.Env)
+}
+
+// paOpenSecondChannel: a second open transfer channel (channel-1) over the same connection, so that one
+// TransferAuthorization can carry several allocations (ValidateBasic refuses two allocations of one channel,
+// approve() refuses a channel that does not exist) and spends can be made per channel.
+func paOpenSecondChannel(e *Env) (err error) {
+	defer func() {
+		if r := recover(); r != nil {
+			err = fmt.Errorf("ibc setup (channel-1): %v", r)
+		}
+	}()
+	ctx := e.Ctx
+	k := e.App.IBCKeeper
+	port, ch := "transfer", "channel-1"
+	channel := channeltypes.NewChannel(channeltypes.OPEN, channeltypes.UNORDERED,
+		channeltypes.NewCounterparty("transfer", "channel-1"), []string{"connection-0"}, transfertypes.Version)
+	k.ChannelKeeper.SetChannel(ctx, port, ch, channel)
+	k.ChannelKeeper.SetNextSequenceSend(ctx, port, ch, 1)
+	k.ChannelKeeper.SetNextSequenceRecv(ctx, port, ch, 1)
+	k.ChannelKeeper.SetNextSequenceAck(ctx, port, ch, 1)
+	capName := host.ChannelCapabilityPath(port, ch)
+	cp, err := e.App.ScopedIBCKeeper.NewCapability(ctx, capName)
+	if err != nil {
+		return err
+	}
+	return e.App.ScopedTransferKeeper.ClaimCapability(ctx, cp, capName)
+}
 
 func setupIBCChannel(e *Env) (err error) {
 	defer func() {
@@ -327,12 +362,15 @@ func paRecvName(i int) string {
 	return []string{"cosmos1receiver0", "cosmos1receiver1", "cosmos1receiver2"}[i%3]
 }
 
-func paChanName(i int) string {
-	if i == 0 {
-		return "channel-0"
+// paChanNum: the channel number behind a channel index (the number is what the observation and the model see)
+func paChanNum(i int) int {
+	if i < paNChan {
+		return i
 	}
-	return fmt.Sprintf("channel-%d", 6+i) // does not exist
+	return 6 + i // does not exist
 }
+
+func paChanName(i int) string { return fmt.Sprintf("channel-%d", paChanNum(i)) }
 
 func (e *paEnv) mkAuthorization(g paGrant) (authz.Authorization, error) {
 	if g.Generic {
@@ -491,7 +529,7 @@ func (g paGrantObs) String() string {
 }
 
 type paObs struct {
-	Bal      [][]string   `json:"bal"`      // [actor 0..5][denom]
+	Bal      [][]string   `json:"bal"`      // [actor 0..6][denom]  (5, 6: the escrow accounts of channel-0, channel-1)
 	Deleg    [][]string   `json:"deleg"`    // [actor][validator]
 	Unbond   [][][]string `json:"unbond"`   // [actor][validator][0 = created by the setup, 1 = created later]
 	Reward   [][]string   `json:"reward"`   // [actor][validator] pending (truncated); -1 = the delegation's distribution record is missing
@@ -526,6 +564,9 @@ func (e *paEnv) actorOf(addr sdk.AccAddress) int {
 	if addr.Equals(e.escrow) {
 		return paEscrow
 	}
+	if addr.Equals(e.escrow2) {
+		return paEscrow2
+	}
 	return -2
 }
 
@@ -540,8 +581,11 @@ func (e *paEnv) valIdx(s string) int {
 
 func (e *paEnv) observe() paObs {
 	o := paObs{}
-	for a := 0; a <= paEscrow; a++ {
+	for a := 0; a <= paEscrow2; a++ {
 		addr := e.escrow
+		if a == paEscrow2 {
+			addr = e.escrow2
+		}
 		if a < paNAct {
 			addr = accOf(a)
 		}
@@ -870,7 +914,7 @@ func coqAllocs(as []paAlloc) string {
 		for _, l := range a.Limits {
 			ls = append(ls, fmt.Sprintf("(%s%%N, %s)", l[0], coqAmt(l[1])))
 		}
-		out = append(out, fmt.Sprintf("mkalloc %s %s %s", coqN(a.Chan), coqList(ls), coqNs(a.Allow)))
+		out = append(out, fmt.Sprintf("mkalloc %s %s %s", coqN(paChanNum(a.Chan)), coqList(ls), coqNs(a.Allow)))
 	}
 	return coqList(out)
 }
@@ -900,15 +944,15 @@ func coqCall(c paCall) string {
 	case "claim":
 		return fmt.Sprintf("CClaim %s", coqN(c.Who))
 	case "ics_transfer":
-		return fmt.Sprintf("CIcsTransfer %s %s %s %s %s", coqN(c.Who), coqN(c.Chan), coqN(c.Den), coqAmt(c.Amt), coqN(c.Recv%3))
+		return fmt.Sprintf("CIcsTransfer %s %s %s %s %s", coqN(c.Who), coqN(paChanNum(c.Chan)), coqN(c.Den), coqAmt(c.Amt), coqN(c.Recv%3))
 	case "ics_approve":
 		return fmt.Sprintf("CIcsApprove %s %s", coqN(c.Who), coqAllocs(c.Alloc))
 	case "ics_revoke":
 		return fmt.Sprintf("CIcsRevoke %s", coqN(c.Who))
 	case "ics_increase":
-		return fmt.Sprintf("CIcsIncrease %s %s %s %s", coqN(c.Who), coqN(c.Chan), coqN(c.Den), coqAmt(c.Amt))
+		return fmt.Sprintf("CIcsIncrease %s %s %s %s", coqN(c.Who), coqN(paChanNum(c.Chan)), coqN(c.Den), coqAmt(c.Amt))
 	case "ics_decrease":
-		return fmt.Sprintf("CIcsDecrease %s %s %s %s", coqN(c.Who), coqN(c.Chan), coqN(c.Den), coqAmt(c.Amt))
+		return fmt.Sprintf("CIcsDecrease %s %s %s %s", coqN(c.Who), coqN(paChanNum(c.Chan)), coqN(c.Den), coqAmt(c.Amt))
 	}
 	return ""
 }
@@ -1072,7 +1116,7 @@ func paGrantMap(o paObs) map[string]paGrantObs {
 // paFrame: accounts other than the signer and the immediate caller can at most receive
 func paFrame(before, after paObs, caller int) []string {
 	msgs := []string{}
-	for a := 0; a <= paEscrow; a++ {
+	for a := 0; a <= paEscrow2; a++ {
 		if a == aO || a == caller {
 			continue
 		}
@@ -1136,7 +1180,11 @@ func paEffect(before, after paObs, c paCall) bool {
 	case "cancel":
 		return before.Unbond[w][c.Val][0] != after.Unbond[w][c.Val][0]
 	case "ics_transfer":
-		return before.Bal[paEscrow][c.Den] != after.Bal[paEscrow][c.Den]
+		// every channel escrows into its own account
+		if c.Chan >= paNChan {
+			return false
+		}
+		return before.Bal[paEscrow+c.Chan][c.Den] != after.Bal[paEscrow+c.Chan][c.Den]
 	}
 	return false
 }
@@ -1452,6 +1500,16 @@ func paRunCase(id string, in paInput) []Case {
 				nontrivial = true
 			}
 			tags[fmt.Sprintf("%s:%s:named=%s:%s", cc.M, shape, rel, out)] = true
+			switch cc.M {
+			case "ics_approve":
+				nc := 0
+				for _, al := range cc.Alloc {
+					nc += len(al.Limits)
+				}
+				tags[fmt.Sprintf("ics_approve:allocations=%d:coins=%d:%s", len(cc.Alloc), nc, out)] = true
+			case "ics_transfer", "ics_increase", "ics_decrease":
+				tags[fmt.Sprintf("%s:%s:%s:%s", cc.M, paChanName(cc.Chan), paDenomName(cc.Den), out)] = true
+			}
 			if !r.Calls[i] && paIdentityErr(r.Errs[i]) {
 				tags["rejected-by-identity:"+cc.M] = true
 			}
@@ -1492,12 +1550,176 @@ type paAcct struct {
 	granted *big.Int
 	spent   *big.Int
 }
-type paAccounting struct{ m map[string]*paAcct }
+type paAccounting struct {
+	m map[string]*paAcct
+	// ICS-20: per grantee, the allowance of every (channel, denomination) of the signer's TransferAuthorization
+	ics        map[int]*paIcsAcct
+	icsUnknown bool // after a transaction whose calls cannot be told apart: nothing is known about grantees not in ics
+}
+
+// paIcsAcct: what the signer granted one grantee since the grant was last (re)defined by approve / revoke,
+// per "channel number:denomination index"; a pair that is not listed was granted nothing.
+type paIcsAcct struct {
+	known bool
+	ent   map[string]*paAcct
+}
+
+func paIcsKey(chanNum, den int) string { return fmt.Sprintf("%d:%d", chanNum, den) }
+
+// paIcsFromAllocs: the allowances a list of allocations grants (first allocation of a channel, first coin of a
+// denomination, as TransferAuthorization.Accept reads them)
+func paIcsFromAllocs(allocs []paAlloc) *paIcsAcct {
+	x := &paIcsAcct{known: true, ent: map[string]*paAcct{}}
+	seenCh := map[int]bool{}
+	for _, al := range allocs {
+		cn := paChanNum(al.Chan)
+		if seenCh[cn] {
+			continue
+		}
+		seenCh[cn] = true
+		for _, l := range al.Limits {
+			k := paIcsKey(cn, int(bigOf(l[0]).Int64()))
+			if _, dup := x.ent[k]; dup {
+				continue
+			}
+			if l[1] == "max" || paAmt(l[1]).Cmp(abi.MaxUint256) == 0 {
+				x.ent[k] = &paAcct{known: true, limited: false}
+			} else {
+				x.ent[k] = &paAcct{known: true, limited: true, granted: paAmt(l[1]), spent: big.NewInt(0)}
+			}
+		}
+	}
+	return x
+}
+
+// paIcsFromObs: the same from an observed grant ("chan|d:amt,d:amt|r,r")
+func paIcsFromObs(g paGrantObs) *paIcsAcct {
+	x := &paIcsAcct{known: true, ent: map[string]*paAcct{}}
+	if g.Type != "transfer" {
+		return x // any other authorization under MsgTransfer grants the precompile nothing
+	}
+	seenCh := map[string]bool{}
+	for _, s := range g.Allocs {
+		f := strings.Split(s, "|")
+		if seenCh[f[0]] {
+			continue
+		}
+		seenCh[f[0]] = true
+		if f[1] == "" {
+			continue
+		}
+		for _, l := range strings.Split(f[1], ",") {
+			dl := strings.Split(l, ":")
+			k := f[0] + ":" + dl[0]
+			if _, dup := x.ent[k]; dup {
+				continue
+			}
+			if dl[1] == "max" {
+				x.ent[k] = &paAcct{known: true, limited: false}
+			} else {
+				x.ent[k] = &paAcct{known: true, limited: true, granted: bigOf(dl[1]), spent: big.NewInt(0)}
+			}
+		}
+	}
+	return x
+}
+
+func (a *paAccounting) icsOf(grantee int) *paIcsAcct {
+	if x, ok := a.ics[grantee]; ok {
+		return x
+	}
+	x := &paIcsAcct{known: !a.icsUnknown, ent: map[string]*paAcct{}}
+	a.ics[grantee] = x
+	return x
+}
+
+// stepIcs: the ICS-20 part of the running allowance.  approve(grantee, allocations) (re)defines the allowance of
+// EVERY (channel, denomination) as exactly the amounts the call names (nothing for the pairs it does not name);
+// increase / decrease change one pair; revoke leaves nothing; a transfer by the grantee that took effect is spent
+// from the pair of its channel and denomination.  Spent must never exceed granted.
+func (a *paAccounting) stepIcs(before, after paObs, t paTx, calls []bool) []string {
+	c := t.Calls[0]
+	caller := t.caller()
+	gkey := func(grantee int) string { return fmt.Sprintf("%d>%d:transfer", aO, grantee) }
+	unchanged := func(grantee int) bool {
+		gb, hb := paGrantMap(before)[gkey(grantee)]
+		ga, ha := paGrantMap(after)[gkey(grantee)]
+		return hb == ha && (!hb || gb.String() == ga.String())
+	}
+	switch c.M {
+	case "ics_approve", "ics_revoke", "ics_increase", "ics_decrease":
+		if c.Who >= paNAct {
+			return nil
+		}
+		if !calls[0] {
+			if !unchanged(c.Who) {
+				a.ics[c.Who] = &paIcsAcct{known: false} // a failed call that wrote: nothing is known any more
+			}
+			return nil
+		}
+		switch c.M {
+		case "ics_approve":
+			a.ics[c.Who] = paIcsFromAllocs(c.Alloc)
+		case "ics_revoke":
+			a.ics[c.Who] = &paIcsAcct{known: true, ent: map[string]*paAcct{}}
+		default:
+			x := a.icsOf(c.Who)
+			if !x.known {
+				return nil
+			}
+			k := paIcsKey(paChanNum(c.Chan), c.Den)
+			en := x.ent[k]
+			amt := paAmt(c.Amt)
+			switch {
+			case en == nil:
+				// the call succeeded on an allowance the accounting does not list: stop accounting this grantee
+				x.known = false
+			case !en.limited:
+				if c.M == "ics_decrease" && amt.Sign() > 0 {
+					// the unbounded sentinel minus the amount: a new, limited allowance
+					x.ent[k] = &paAcct{known: true, limited: true, granted: new(big.Int).Sub(abi.MaxUint256, amt), spent: big.NewInt(0)}
+				}
+			case c.M == "ics_increase":
+				en.granted = new(big.Int).Add(en.granted, amt)
+				if new(big.Int).Sub(en.granted, en.spent).Cmp(abi.MaxUint256) == 0 {
+					en.limited = false // increased to exactly the sentinel: unbounded from now on
+				}
+			default:
+				en.granted = new(big.Int).Sub(en.granted, amt)
+			}
+		}
+	case "ics_transfer":
+		if caller == aO || !paEffect(before, after, c) {
+			return nil
+		}
+		x := a.icsOf(caller)
+		if !x.known {
+			return nil
+		}
+		k := paIcsKey(paChanNum(c.Chan), c.Den)
+		en := x.ent[k]
+		if en == nil {
+			en = &paAcct{known: true, limited: true, granted: big.NewInt(0), spent: big.NewInt(0)}
+			x.ent[k] = en
+		}
+		if en.limited {
+			en.spent = new(big.Int).Add(en.spent, paAmt(c.Amt))
+			if en.spent.Cmp(en.granted) > 0 {
+				return []string{fmt.Sprintf("%s has transferred %s %s of the signer's funds over %s, but the signer's approve / increaseAllowance / decreaseAllowance calls since the "+
+					"last approve grant %s only %s %s on that channel", paActorName[caller], en.spent, paDenomName(c.Den), paChanName(c.Chan), paActorName[caller], en.granted, paDenomName(c.Den))}
+			}
+		}
+	}
+	return nil
+}
 
 // the grants the signer gave before the history count as approvals of their limit
 func newPaAccounting(pre paObs) *paAccounting {
-	a := &paAccounting{m: map[string]*paAcct{}}
+	a := &paAccounting{m: map[string]*paAcct{}, ics: map[int]*paIcsAcct{}}
 	for _, g := range pre.Grants {
+		if g.Granter == aO && g.Kind == "transfer" && g.Grantee >= 0 && g.Grantee < paNAct {
+			a.ics[g.Grantee] = paIcsFromObs(g)
+		}
 		if g.Granter != aO || g.Type != "stake" {
 			continue
 		}
@@ -1517,9 +1739,14 @@ func (a *paAccounting) step(before, after paObs, t paTx, calls []bool) []string 
 	if len(t.Calls) != 1 {
 		// several calls in one transaction: the per-call effects are not separable from the outside; restart the accounting
 		a.m = map[string]*paAcct{}
+		a.ics = map[int]*paIcsAcct{}
+		a.icsUnknown = true
 		return nil
 	}
 	c := t.Calls[0]
+	if strings.HasPrefix(c.M, "ics_") {
+		return a.stepIcs(before, after, t, calls)
+	}
 	switch c.M {
 	case "approve", "increase", "decrease", "revoke":
 		if !calls[0] {
@@ -1694,6 +1921,46 @@ func paIcsGStates() []paGState {
 		{"granted-by-third-account", func(g int, k string, amt int64) []paGrant {
 			return []paGrant{{Granter: aP, Grantee: g, Kind: "transfer", Allocs: one(700)(amt), Exp: paI64p(5000)}}
 		}, 0},
+		// ---- several allocations in one grant: the allocation of the channel of the spend decides, whatever the others allow
+		{"two-channels-this-one-smaller", mk(func(amt int64) []paAlloc {
+			return []paAlloc{{Chan: 0, Limits: [][]string{{"0", fmt.Sprint(amt - 1)}}}, {Chan: 1, Limits: [][]string{{"0", fmt.Sprint(amt + 700)}}}}
+		}, paI64p(5000)), 0},
+		{"two-channels-this-one-larger", mk(func(amt int64) []paAlloc {
+			return []paAlloc{{Chan: 1, Limits: [][]string{{"0", "5"}}}, {Chan: 0, Limits: [][]string{{"0", fmt.Sprint(amt + 700)}, {"1", "8"}}}}
+		}, paI64p(5000)), 0},
+		{"two-channels-this-one-exhausted", mk(func(amt int64) []paAlloc {
+			return []paAlloc{{Chan: 1, Limits: [][]string{{"0", "40"}, {"1", "9"}}, Allow: []int{1}}, {Chan: 0, Limits: [][]string{{"0", fmt.Sprint(amt)}}}}
+		}, paI64p(5000)), 0},
+		{"other-channel-only", mk(func(amt int64) []paAlloc {
+			return []paAlloc{{Chan: 1, Limits: [][]string{{"0", fmt.Sprint(amt + 700)}}}}
+		}, paI64p(5000)), 0},
+		{"two-channels-other-unbounded", mk(func(amt int64) []paAlloc {
+			return []paAlloc{{Chan: 1, Limits: [][]string{{"0", "max"}}}, {Chan: 0, Limits: [][]string{{"0", fmt.Sprint(amt - 1)}}}}
+		}, paI64p(5000)), 0},
+	}
+}
+
+// grant states for a spend of `amt` over channel-1 (the second open channel)
+func paIcsChan1GStates() []paGState {
+	mk := func(allocs func(amt int64) []paAlloc) func(int, string, int64) []paGrant {
+		return func(g int, k string, amt int64) []paGrant {
+			return []paGrant{{Granter: aO, Grantee: g, Kind: "transfer", Allocs: allocs(amt), Exp: paI64p(5000)}}
+		}
+	}
+	two := func(d0, d1 int64) func(int64) []paAlloc {
+		return func(amt int64) []paAlloc {
+			return []paAlloc{{Chan: 0, Limits: [][]string{{"0", fmt.Sprint(amt + d0)}}}, {Chan: 1, Limits: [][]string{{"0", fmt.Sprint(amt + d1)}, {"1", "33"}}}}
+		}
+	}
+	return []paGState{
+		{"absent", func(int, string, int64) []paGrant { return nil }, 0},
+		{"channel-0-only", mk(func(amt int64) []paAlloc { return []paAlloc{{Chan: 0, Limits: [][]string{{"0", fmt.Sprint(amt + 700)}}}} }), 0},
+		{"this-channel-below-other-above", mk(two(700, -1)), 0},
+		{"this-channel-equal-other-below", mk(two(-200, 0)), 0},
+		{"this-channel-above-other-below", mk(two(-200, 700)), 0},
+		{"this-channel-unbounded", mk(func(amt int64) []paAlloc {
+			return []paAlloc{{Chan: 0, Limits: [][]string{{"0", "7"}}}, {Chan: 1, Limits: [][]string{{"0", "max"}}}}
+		}), 0},
 	}
 }
 
@@ -1748,6 +2015,34 @@ func paMatrix() []paNamedCase {
 						s.Grants = append(s.Grants, paGrant{Granter: aO, Grantee: grantee, Kind: paSpend[m], Allow: []int{0, 1}, Exp: paI64p(5000)})
 					}
 					add(fmt.Sprintf("%s/%d-hops/named=%s/%s", m, len(path), paActorName[who], gs.name), s, path, gs.dt, c)
+				}
+			}
+		}
+	}
+	// ---- ICS-20 spends over the second channel (its own allocation, its own escrow account)
+	for _, path := range paPaths() {
+		caller := callerOf(path)
+		whos := []int{aO}
+		if caller != aO {
+			whos = append(whos, caller)
+		}
+		for _, who := range whos {
+			for di, den := range []int{0, 1} {
+				c := paCall{M: "ics_transfer", Who: who, Chan: 1, Den: den, Amt: []string{"300", "33"}[di], Recv: 1, Catch: true}
+				for _, gs := range paIcsChan1GStates() {
+					if caller == aO && gs.name != "absent" && gs.name != "channel-0-only" {
+						continue
+					}
+					if den == 1 && gs.name != "this-channel-above-other-below" && gs.name != "channel-0-only" {
+						continue
+					}
+					s := paStdSetup()
+					grantee := caller
+					if caller == aO {
+						grantee = aC1
+					}
+					s.Grants = gs.grants(grantee, "transfer", 300)
+					add(fmt.Sprintf("ics_transfer-channel-1/%d-hops/named=%s/d%d/%s", len(path), paActorName[who], den, gs.name), s, path, gs.dt, c)
 				}
 			}
 		}
@@ -1858,6 +2153,22 @@ func paMatrix() []paNamedCase {
 		{"generic", func(g int) []paGrant {
 			return []paGrant{{Granter: aO, Grantee: g, Kind: "transfer", Generic: true, Exp: paI64p(5000)}}
 		}, 0},
+		{"two-channels", func(g int) []paGrant {
+			return []paGrant{{Granter: aO, Grantee: g, Kind: "transfer", Allocs: []paAlloc{{Chan: 0, Limits: [][]string{{"0", "1000"}, {"1", "50"}}, Allow: []int{0}},
+				{Chan: 1, Limits: [][]string{{"0", "70"}}}}, Exp: paI64p(5000)}}
+		}, 0},
+	}
+	// one approve() with SEVERAL allocations: different channels, denominations and limits, several coins per allocation
+	multi := []struct {
+		name  string
+		alloc []paAlloc
+	}{
+		{"two-channels-small-then-huge", []paAlloc{{Chan: 0, Limits: [][]string{{"0", "10"}}}, {Chan: 1, Limits: [][]string{{"0", "1000000000000000000"}}}}},
+		{"two-channels-reversed-two-coins-each", []paAlloc{{Chan: 1, Limits: [][]string{{"0", "777"}, {"1", "5"}}}, {Chan: 0, Limits: [][]string{{"0", "3"}, {"1", "60000"}}}}},
+		{"two-channels-uneven-coins", []paAlloc{{Chan: 0, Limits: [][]string{{"0", "800"}, {"1", "9"}}, Allow: []int{2}}, {Chan: 1, Limits: [][]string{{"1", "44"}}}}},
+		{"two-channels-one-then-two-coins", []paAlloc{{Chan: 1, Limits: [][]string{{"1", "6"}}}, {Chan: 0, Limits: [][]string{{"0", "max"}, {"1", "123"}}}}},
+		{"duplicate-channel", []paAlloc{{Chan: 0, Limits: [][]string{{"0", "10"}}}, {Chan: 0, Limits: [][]string{{"0", "999"}}}}},
+		{"three-allocations-one-missing-channel", []paAlloc{{Chan: 0, Limits: [][]string{{"0", "10"}}}, {Chan: 1, Limits: [][]string{{"0", "20"}}}, {Chan: 2, Limits: [][]string{{"0", "30"}}}}},
 	}
 	for _, path := range paPaths() {
 		caller := callerOf(path)
@@ -1870,7 +2181,18 @@ func paMatrix() []paNamedCase {
 			add(fmt.Sprintf("ics_approve/%d-hops/%s", len(path), ps.name), s(), path, ps.dt,
 				paCall{M: "ics_approve", Who: grantee, Alloc: []paAlloc{{Chan: 0, Limits: [][]string{{"0", "800"}, {"1", "9"}}, Allow: []int{2}}}, Catch: true})
 			add(fmt.Sprintf("ics_approve-missing-channel/%d-hops/%s", len(path), ps.name), s(), path, ps.dt,
-				paCall{M: "ics_approve", Who: grantee, Alloc: []paAlloc{{Chan: 0, Limits: [][]string{{"0", "800"}}}, {Chan: 1, Limits: [][]string{{"0", "5"}}}}, Catch: true})
+				paCall{M: "ics_approve", Who: grantee, Alloc: []paAlloc{{Chan: 0, Limits: [][]string{{"0", "800"}}}, {Chan: 2, Limits: [][]string{{"0", "5"}}}}, Catch: true})
+			for _, mu := range multi {
+				add(fmt.Sprintf("ics_approve-%s/%d-hops/%s", mu.name, len(path), ps.name), s(), path, ps.dt, paCall{M: "ics_approve", Who: grantee, Alloc: mu.alloc, Catch: true})
+			}
+			if ps.name == "two-channels" || ps.name == "absent" {
+				for _, amt := range []string{"30", "70", "71"} {
+					add(fmt.Sprintf("ics_increase-channel-1/%d-hops/%s/%s", len(path), ps.name, amt), s(), path, ps.dt,
+						paCall{M: "ics_increase", Who: grantee, Chan: 1, Den: 0, Amt: amt, Catch: true})
+					add(fmt.Sprintf("ics_decrease-channel-1/%d-hops/%s/%s", len(path), ps.name, amt), s(), path, ps.dt,
+						paCall{M: "ics_decrease", Who: grantee, Chan: 1, Den: 0, Amt: amt, Catch: true})
+				}
+			}
 			add(fmt.Sprintf("ics_revoke/%d-hops/%s", len(path), ps.name), s(), path, ps.dt, paCall{M: "ics_revoke", Who: grantee, Catch: true})
 			for _, amt := range []string{"400", "1000", "1001"} {
 				for _, den := range []int{0, 1} {
@@ -2056,6 +2378,214 @@ func paGenHistory(r *Rng) paInput {
 	return in
 }
 
+// ---- ICS-20 histories: approve / increaseAllowance / decreaseAllowance calls that carry SEVERAL allocations
+// (different channels, denominations and limits in one call, one or two coins per allocation), spends by the
+// grantee contracts per channel and denomination with amounts at and around the limits of ALL allocations of
+// the grantee's last approve (so that a limit that leaked from one allocation into another is overspent), a few
+// staking calls in between, time passing.
+func paGenIcsAllocs(r *Rng, valid bool) []paAlloc {
+	amount := func() string {
+		switch r.Intn(20) {
+		case 0:
+			return "max"
+		case 1:
+			return "1000000000000000000"
+		case 2, 3, 4, 5:
+			return fmt.Sprint(1 + r.Intn(20))
+		case 6, 7, 8:
+			return fmt.Sprint(2000 + r.Intn(9000))
+		case 9:
+			if !valid {
+				return "0"
+			}
+		}
+		return fmt.Sprint(50 + r.Intn(700))
+	}
+	chans := []int{0, 1}
+	if r.Chance(50) {
+		chans = []int{1, 0}
+	}
+	n := 2
+	switch k := r.Intn(10); {
+	case k < 3:
+		n = 1
+	case k < 4 && !valid:
+		n = 3
+	}
+	switch {
+	case n == 1 && r.Chance(50):
+		chans = chans[1:]
+	case n == 3 && r.Chance(50):
+		chans = []int{chans[0], chans[1], chans[0]} // the same channel twice: ValidateBasic refuses
+	case n == 3:
+		chans = []int{chans[0], 2, chans[1]} // a channel that does not exist
+	}
+	out := []paAlloc{}
+	for i := 0; i < n; i++ {
+		al := paAlloc{Chan: chans[i]}
+		switch r.Intn(9) {
+		case 0, 1, 2, 3:
+			al.Limits = [][]string{{"0", amount()}}
+		case 4:
+			al.Limits = [][]string{{"1", amount()}}
+		default:
+			al.Limits = [][]string{{"0", amount()}, {"1", amount()}}
+		}
+		if r.Chance(20) {
+			al.Allow = []int{r.Intn(3)}
+		}
+		out = append(out, al)
+	}
+	return out
+}
+
+func paGenIcsHistory(r *Rng) paInput {
+	s := paSetup{Reward: []string{"0", "0"}, Withdraw: []int{-1, -1, -1, -1, -1}}
+	for a := 0; a < paNAct; a++ {
+		s.Bal = append(s.Bal, []string{fmt.Sprint(4000 + r.Intn(9000)), fmt.Sprint(600 + r.Intn(2500))})
+		d := 0
+		if r.Chance(40) {
+			d = 500 * (1 + r.Intn(4))
+		}
+		s.Deleg = append(s.Deleg, []string{fmt.Sprint(d), "0"})
+		s.Unbond = append(s.Unbond, []string{"0", "0"})
+	}
+	// the limits the signer gave every grantee last (all allocations, all coins): the spends aim at them
+	lastLimits := map[int][]string{}
+	note := func(g int, as []paAlloc) {
+		ls := []string{}
+		for _, a := range as {
+			for _, l := range a.Limits {
+				if l[1] != "max" && len(l[1]) < 10 {
+					ls = append(ls, l[1])
+				}
+			}
+		}
+		lastLimits[g] = ls
+	}
+	for _, g := range []int{aC1, aC2} {
+		if r.Chance(50) {
+			as := paGenIcsAllocs(r, true)
+			s.Grants = append(s.Grants, paGrant{Granter: aO, Grantee: g, Kind: "transfer", Allocs: as, Exp: paI64p(int64(1000 + r.Intn(3)*40000000))})
+			note(g, as)
+		}
+		if r.Chance(20) {
+			s.Grants = append(s.Grants, paGrant{Granter: aO, Grantee: g, Kind: "delegate", Limit: fmt.Sprint(200 + r.Intn(900)), Allow: []int{0, 1}, Exp: paI64p(90000000)})
+		}
+	}
+	if r.Chance(15) {
+		s.Grants = append(s.Grants, paGrant{Granter: aP, Grantee: aC1, Kind: "transfer", Allocs: paGenIcsAllocs(r, true), Exp: paI64p(90000000)})
+	}
+	in := paInput{Setup: s}
+	amount := func() string {
+		switch r.Intn(10) {
+		case 0:
+			return "1"
+		case 1:
+			return fmt.Sprint(2000 + r.Intn(9000))
+		}
+		return fmt.Sprint(50 + r.Intn(700))
+	}
+	// an amount at or next to one of the limits of the grantee's last approve (ANY allocation, ANY coin of it)
+	near := func(g int) string {
+		ls := lastLimits[g]
+		if len(ls) == 0 || r.Chance(30) {
+			return amount()
+		}
+		l := bigOf(ls[r.Intn(len(ls))])
+		switch r.Intn(6) {
+		case 0:
+			l = new(big.Int).Add(l, big.NewInt(1))
+		case 1:
+			if l.Cmp(big.NewInt(1)) > 0 {
+				l = new(big.Int).Sub(l, big.NewInt(1))
+			}
+		case 2:
+			if l.Cmp(big.NewInt(3)) > 0 {
+				l = new(big.Int).Rsh(l, 1)
+			}
+		}
+		if l.Sign() <= 0 {
+			return "1"
+		}
+		return l.String()
+	}
+	lastGrantee := -1
+	genCall := func(caller int) paCall {
+		grantee := []int{aC1, aC1, aC2, aC2, aP, aC3}[r.Intn(6)]
+		ch := r.Intn(2)
+		if r.Chance(4) {
+			ch = 2
+		}
+		k := r.Intn(100)
+		switch {
+		case k < 22:
+			as := paGenIcsAllocs(r, r.Chance(88))
+			note(grantee, as)
+			lastGrantee = grantee
+			return paCall{M: "ics_approve", Who: grantee, Alloc: as, Catch: r.Chance(85)}
+		case k < 31:
+			return paCall{M: "ics_increase", Who: grantee, Chan: ch, Den: r.Intn(2), Amt: near(grantee), Catch: r.Chance(85)}
+		case k < 41:
+			return paCall{M: "ics_decrease", Who: grantee, Chan: ch, Den: r.Intn(2), Amt: near(grantee), Catch: r.Chance(85)}
+		case k < 44:
+			return paCall{M: "ics_revoke", Who: grantee, Catch: r.Chance(85)}
+		case k < 88:
+			named := aO
+			if caller != aO && r.Chance(20) {
+				named = caller
+			}
+			if r.Chance(4) {
+				named = r.Intn(paNAct)
+			}
+			return paCall{M: "ics_transfer", Who: named, Chan: ch, Den: r.Intn(2), Amt: near(caller), Recv: r.Intn(3), Catch: r.Chance(85)}
+		case k < 92:
+			return paCall{M: "approve", Who: grantee, Amt: amount(), Types: []string{"delegate"}, Catch: r.Chance(85)}
+		case k < 97:
+			named := caller
+			if caller != aO && r.Chance(60) {
+				named = aO
+			}
+			return paCall{M: "delegate", Who: named, Val: 0, Amt: amount(), Catch: r.Chance(85)}
+		}
+		return paCall{M: "claim", Who: caller, Catch: r.Chance(85)}
+	}
+	nTx := 4 + r.Intn(6)
+	for i := 0; i < nTx; i++ {
+		paths := [][]int{{}, {aC1}, {aC2}, {aC1, aC2}, {aC2, aC1}, {aC3}}
+		t := paTx{Path: paths[r.Intn(6)]}
+		// after an approve for a contract, let that contract call more often than chance would
+		if (lastGrantee == aC1 || lastGrantee == aC2) && r.Chance(45) {
+			if r.Chance(75) {
+				t.Path = []int{lastGrantee}
+			} else {
+				t.Path = []int{aC1 + aC2 - lastGrantee, lastGrantee}
+			}
+		}
+		switch r.Intn(16) {
+		case 0:
+			t.Dt = 10
+		case 1:
+			t.Dt = 86400
+		case 2:
+			t.Dt = int64(31536000 - 5)
+		case 3:
+			t.Dt = 40000000
+		case 4:
+			t.Dt = 1000
+		}
+		n := 1
+		if len(t.Path) > 0 && r.Chance(15) {
+			n = 2
+		}
+		for j := 0; j < n; j++ {
+			t.Calls = append(t.Calls, genCall(t.caller()))
+		}
+		in.Txs = append(in.Txs, t)
+	}
+	return in
+}
+
 func paGenTypes(r *Rng) []string {
 	switch r.Intn(10) {
 	case 0:
@@ -2075,7 +2605,8 @@ func paGenTypes(r *Rng) []string {
 // ---------------------------------------------------------------- driver
 // One run = the identity x grant-state matrix followed by cfg.N random histories.
 // args: matrix=<k>  run about k cells of the matrix (every (size/k)-th cell, offset derived from the seed;
-//                   default: the whole matrix);  part=matrix|histories  run only that part.
+//                   default: the whole matrix);  part=matrix|histories|ics  run only that part;
+//       ics=<p>     number of ICS-20 multi-allocation histories, in percent of n (default 40).
 func paDriver(cfg Config, out *Out) error {
 	emit := func(cs []Case) {
 		for _, c := range cs {
@@ -2095,7 +2626,7 @@ func paDriver(cfg Config, out *Out) error {
 		})
 	}
 	part := cfg.Args["part"]
-	if part != "histories" {
+	if part == "" || part == "matrix" {
 		m := paMatrix()
 		stride := 1
 		if k := int(bigOf(cfg.Args["matrix"]).Int64()); k > 0 && k < len(m) {
@@ -2110,12 +2641,28 @@ func paDriver(cfg Config, out *Out) error {
 			emit(cs)
 		}
 	}
-	if part != "matrix" {
+	if part != "matrix" && part != "ics" {
 		r := NewRng(cfg.Seed)
 		for i := 0; i < cfg.N; i++ {
 			cs := paRunCase(fmt.Sprintf("h%d-%d", cfg.Seed, i), paGenHistory(r.Fork()))
 			for k := range cs {
 				cs[k].Tags = append(cs[k].Tags, "history")
+			}
+			emit(cs)
+		}
+	}
+	if part != "matrix" && part != "histories" {
+		// a second stream (its own PRNG, so that the histories above are what they were): ICS-20 histories with
+		// several allocations per approve and spends per channel; ics=<percent of n>, default 40
+		pct := 40
+		if k := int(bigOf(cfg.Args["ics"]).Int64()); k > 0 {
+			pct = k
+		}
+		r := NewRng(cfg.Seed ^ 0x1c520a110c5)
+		for i := 0; i < (cfg.N*pct+99)/100; i++ {
+			cs := paRunCase(fmt.Sprintf("i%d-%d", cfg.Seed, i), paGenIcsHistory(r.Fork()))
+			for k := range cs {
+				cs[k].Tags = append(cs[k].Tags, "ics-history")
 			}
 			emit(cs)
 		}
